@@ -1,6 +1,5 @@
 \* spec mutant: the mechanism variant "wrap_no_fallback" (see GlomErrors.tla) must violate a law
 CONSTANTS
-  Fix = TRUE
   Mutant = "wrap_no_fallback"
   MinDepth = 0
   MaxDepth = 1
